@@ -295,6 +295,7 @@ func IndentByParentheses(s string) string {
 		space
 		comment
 		normal
+		str
 	)
 
 	left := make(map[rune]bool)
@@ -353,6 +354,16 @@ func IndentByParentheses(s string) string {
 	for i := 0; i < len(A); i++ {
 		c := A[i]
 		switch {
+		case c == '"' && (i == 0 || prev != normal || A[i-1] == ','):
+			// a string literal is copied verbatim up to its closing quote
+			appendRune(c, prev, indent)
+			for i++; i < len(A); i++ {
+				sb.WriteRune(A[i])
+				if A[i] == '"' {
+					break
+				}
+			}
+			prev = str
 		case left[c]:
 			appendLeft(c, prev, indent)
 			indent++
